@@ -61,6 +61,13 @@ def fault_matrix():
         out.append({'f': 'context-required', 'who': 'mw-request', 'where': w})
         out.append({'f': 'context-required', 'who': 'mw-endpoint', 'where': w})
     out.append({'f': 'context-required', 'who': 'ep'})
+    # the same misuse behind an outer function of the same phase that merely *accepts* context with a default
+    for w in WHERE:
+        for who in ('mw-request', 'mw-endpoint', 'ep'):
+            out.append({'f': 'context-required-after-optional', 'who': who, 'where': w})
+    for who in ('ep', 'rn'):
+        for w in WHERE:
+            out.append({'f': 'takes-next-after-optional', 'who': who, 'where': w})
     return out
 
 
@@ -167,6 +174,29 @@ def apply_fault(base, fault, bare=False):
             cfg['route']['rn'] = [['context', 'pos', False]]
             cfg['route']['ep_returns'] = 'context'
         cfg['route'][who] = list(cfg['route'][who]) + [['next', 'pos', fault['default']]]
+    elif f == 'context-required-after-optional':
+        who = fault['who']
+        phase = 'request' if who == 'mw-request' else 'endpoint'
+        c = _container(cfg, fault['where'])
+        outer = _fresh_mw(21)
+        outer[phase] = [['context', 'pos', True]]
+        c['mws'] = [outer] + list(c.get('mws') or [])
+        if who == 'ep':
+            cfg['route']['ep'] = list(cfg['route']['ep']) + [['context', 'pos', False]]
+        else:
+            inner = _fresh_mw(20)
+            inner[phase] = [['context', 'pos', False]]
+            c['mws'] = list(c['mws']) + [inner]
+    elif f == 'takes-next-after-optional':
+        who = fault['who']
+        c = _container(cfg, fault['where'])
+        outer = _fresh_mw(21)
+        outer['endpoint' if who == 'ep' else 'render'] = [['request', 'pos', True]]
+        c['mws'] = [outer] + list(c.get('mws') or [])
+        if who == 'rn' and cfg['route'].get('rn') is None:
+            cfg['route']['rn'] = [['context', 'pos', False]]
+            cfg['route']['ep_returns'] = 'context'
+        cfg['route'][who] = list(cfg['route'][who]) + [['next', 'pos', False]]
     elif f == 'context-required':
         who = fault['who']
         if who == 'ep':
